@@ -93,7 +93,8 @@ MERGE_MESHES = {
 }
 MERGE_QUICK = ["TRI3", "QUAD4", "TRI6", "mixed", "TETRA4", "HEXA8", "PRISM6"]
 LETTERS = ["A", "E", "D", "S"]  # A, A translated onto a shared edge, A disjoint, a second copy of A
-SHIFT = {"A": (0.0, 0.0, 0.0), "E": (1.0, 0.0, 0.0), "D": (3.0, 0.5, 0.25), "S": (0.0, 0.0, 0.0)}
+# N: like E but 2e-7 further (used with coordinates x 1000 and an explicit absolute tolerance of 1e-6: a gap of 2e-4 must survive)
+SHIFT = {"A": (0.0, 0.0, 0.0), "E": (1.0, 0.0, 0.0), "D": (3.0, 0.5, 0.25), "S": (0.0, 0.0, 0.0), "N": (1.0 + 2e-7, 0.0, 0.0)}
 MAPS = ["identity", "generic"]
 
 
@@ -112,6 +113,9 @@ def cases(tier, seed):
                 for mpts in (True, False):
                     for lst in lists:
                         out.append({"kind": "merge", "mesh": name, "map": mp, "unique": uniq, "mergePoints": mpts, "list": "".join(lst)})
+        # bodies in millimetres (coordinates x 1000) merged with an explicit ABSOLUTE tolerance: nodes further apart than it stay distinct
+        for lst in ("AN", "AEN", "NA"):
+            out.append({"kind": "merge", "mesh": name, "map": "identity", "unique": True, "mergePoints": True, "list": lst, "big": True})
     return out
 
 
@@ -594,7 +598,11 @@ def _run_merge(case):
     zm0 = MERGE_MESHES[name]()
     d = zm0.dim
     A = np.eye(3) if mp == "identity" else Z.generic_affine(rng("c20merge", name), d)
-    zms = {L: zm0.mapped(A, A @ np.asarray(SHIFT[L])) for L in LETTERS}
+    big = bool(case.get("big"))
+    if big:
+        A = A * 1000.0
+        key["big"] = True
+    zms = {L: zm0.mapped(A, A @ np.asarray(SHIFT[L])) for L in set(LETTERS) | set(letters)}
     built = {}
     lst = []
     for L in letters:
@@ -603,7 +611,8 @@ def _run_merge(case):
         lst.append(built[L])
     v = []
     try:
-        res = Mesh.Merge(lst, constructUniqueElements=uniq, mergePoints=mpts, return_mapping=True)
+        kw = {"mergePointsTol": 1e-6} if big else {}
+        res = Mesh.Merge(lst, constructUniqueElements=uniq, mergePoints=mpts, return_mapping=True, **kw)
         merged, mapping = res
     except Exception as err:  # the property promises a merged mesh and a mapping for any list
         v.append(viol("merge_exception", f"Mesh.Merge of {letters} ({name}) raised {type(err).__name__}: {str(err)[:200]}", **key))
